@@ -20,6 +20,7 @@ class Clause:
     node: ast.FunctionDef
     props: list
     known: list = field(default_factory=list)   # known-finding ids whose region is excluded
+    mode: str = "both"            # both | prove (verification only) | use (call sites only)
 
 
 @dataclass
@@ -100,7 +101,7 @@ class Registry:
                     dec = d
             if dec is None:
                 continue
-            target = dec.args[0].value
+            target = const_eval(dec.args[0], mi)
             kw = {k.arg: const_eval(k.value, mi) for k in dec.keywords}
             props = kw.get("props") or ([kw["prop"]] if "prop" in kw else [])
             c = Contract(target, st.name, modname, props, line=st.lineno)
@@ -132,15 +133,17 @@ class Registry:
                 elif isinstance(b, ast.FunctionDef):
                     cprops = props
                     known = []
+                    mode = "both"
                     for d in b.decorator_list:
                         if isinstance(d, ast.Call) and isinstance(d.func, ast.Name) and d.func.id == "clause":
                             kk = {k.arg: const_eval(k.value, mi) for k in d.keywords}
                             cprops = kk.get("props", cprops)
                             known = kk.get("known", [])
+                            mode = kk.get("mode", "both")
                     if b.name.startswith("requires"):
                         c.requires.append(Clause(b.name, b, cprops))
                     elif b.name.startswith("ensures"):
-                        c.ensures.append(Clause(b.name[len("ensures"):].lstrip("_") or "post", b, cprops, known))
+                        c.ensures.append(Clause(b.name[len("ensures"):].lstrip("_") or "post", b, cprops, known, mode))
                     elif b.name.startswith("raises_"):
                         if not isinstance(c.raises, dict):
                             c.raises = {}
@@ -169,6 +172,7 @@ class Task:
         self.inline_targets = set(contract.inline)
         self.self_val = None
         self.param_vals = {}
+        self.suffix = ""
 
     def may_modify(self, ctx, fr, path, obj: Val, attr):
         mods = self.contract.modifies
@@ -196,8 +200,12 @@ class Task:
                     return True
                 src = obj.src
             elif src[0] == "item":
-                src = src[1].src
-                # parameter containers
+                c = src[1]
+                for pname, pv in self.param_vals.items():
+                    if isinstance(pv, Val) and isinstance(c, Val) and (pv is c or z3.eq(simp(pv.t), simp(c.t))):
+                        if pname in mods or f"{pname}[*]" in mods:
+                            return True
+                src = c.src if isinstance(c, Val) else None
             else:
                 break
         for pname, pv in self.param_vals.items():
@@ -522,6 +530,8 @@ def apply_contract_at_call(ctx, fr, path, f: FuncRef, contract: Contract, env, n
     result = None
     pending = []
     for cl in contract.ensures:
+        if cl.mode == "prove":
+            continue
         eqn = _single_return_eq(cl.node)
         if eqn is not None and isinstance(eqn[0], ast.Name) and eqn[0].id == "result" and result is None:
             pending.append(("result", cl, eqn[1]))
@@ -530,6 +540,7 @@ def apply_contract_at_call(ctx, fr, path, f: FuncRef, contract: Contract, env, n
             pending.append(("field", cl, eqn))
         else:
             pending.append(("assume", cl, None))
+    pending.sort(key=lambda x: {"result": 0, "field": 1, "assume": 2}[x[0]])
     paths = [(path, None)]
     for kind, cl, extra in pending:
         nxt = []
@@ -659,7 +670,8 @@ def verify_contract(ctx, contract: Contract, prop: str):
                 q.pc.append(c) if not z3.is_true(c) else None
                 nxt.append(q)
         pre_paths = nxt
-    npaths = 0
+    # ---- phase A: execute the body on every precondition path
+    work = []          # (old_path, outcome path, Outcome)
     for p0 in pre_paths:
         if not ctx.feasible(p0):
             continue
@@ -668,15 +680,19 @@ def verify_contract(ctx, contract: Contract, prop: str):
         cov.expect_sat = True
         old_path = p0.fork()
         body_path = p0.fork()
-        outs = []
-        mark = len(ctx.pending_raises)
-        for q, v in run_body_outcomes(ctx, body_path, f, env):
-            outs.append((q, v))
-        for q, o in outs:
-            npaths += 1
+        for q, o in run_body_outcomes(ctx, body_path, f, env):
+            work.append((old_path, q, o))
+    ctx.current = None
+
+    # ---- phase B: the postcondition obligations of one outcome path (independent of the others)
+    def check_outcome(i):
+        old_path, q, o = work[i]
+        ctx.current = task
+        task.suffix = f"p{i}"
+        try:
             if o.kind == "raise":
                 check_raise(ctx, spec_mi, contract, env, q, old_path, o.value)
-                continue
+                return
             res = o.value if o.kind == "ret" else ctx.lift(None)
             res = ctx.toV(res) if not isinstance(res, Val) else res
             # raises-iff: returning normally means no declared raise condition held
@@ -687,14 +703,19 @@ def verify_contract(ctx, contract: Contract, prop: str):
                         for fct in r.facts[len(old_path.facts):]:
                             r2.assume(fct)
                         extra = r.pc[len(old_path.pc):]
-                        ctx.oblige(r2, z3.Not(ctx.truthy(r, v)), "ensures", f"raises_{ename}.returns_only_if_not", extra_hyps=extra)
+                        ob = ctx.oblige(r2, z3.Not(ctx.truthy(r, v)), "ensures", f"raises_{ename}.returns_only_if_not", extra_hyps=extra)
+                        ob.props = cl.props
             for cl in contract.ensures:
+                if cl.mode == "use":
+                    continue
                 for r, v in eval_clause(ctx, spec_mi, cl.node, env, q.fork(), old_path, res, contract.unfold):
                     ob = ctx.oblige(r, ctx.truthy(r, v), "ensures", cl.name)
                     ob.props = cl.props
                     ob.known = cl.known
-    ctx.current = None
-    return npaths
+        finally:
+            ctx.current = None
+            task.suffix = ""
+    return len(work), check_outcome
 
 
 def run_body_outcomes(ctx, path, f, env):
